@@ -18,7 +18,7 @@ from concurrent.futures import ThreadPoolExecutor
 
 VERIF = os.path.dirname(os.path.dirname(os.path.abspath(__file__)))
 REPO = os.environ.get("VERIF_REPO", "/repo")
-BIN = os.path.join(VERIF, "bin", "regexlint")
+BIN = os.environ.get("REGEXLINT_BIN") or os.path.join(VERIF, "bin", "regexlint")
 
 
 def overlay_from_edit(m):
